@@ -1,4 +1,5 @@
 import CgtModel.Dsl
+import CgtModel.Lemmas.DslLayout
 /-! # C13 — layout, comments, keyword case and line endings never change what is parsed
 
 The executable model `Dsl.parse` is a scannerless PEG reading of parser.pest + parser.rs; the check
@@ -16,8 +17,13 @@ transaction list, error line). Proved here are the layout lemmas the property na
 * `C13_omitted_currency_is_gbp`, `C13_omitted_clause_is_zero`;
 * `C13_nothing_silently_skipped` — when `parse` succeeds, every line is either blank/comment or
   contributed exactly one transaction, in order; `C13_first_bad_line_is_reported`.
-Not proved: the composition `parse (render layout txs) = txs` for every layout (per-token maximal-munch
-lemmas for all seven commands); it is what the correspondence and the oracle exercise.
+* `C13_any_layout` — **the composition**: a well-formed transaction rendered in *any* layout (leading
+  blanks, any non-empty run of blanks/tabs in every gap, each keyword in any mixture of case, trailing
+  blanks and an optional `#` comment) is read as exactly that transaction, for all seven commands;
+  `C13_layouts_agree` — two layouts of the same transaction parse alike.
+Not proved as one theorem: layouts that drop an optional element the reader defaults (omitted `GBP`,
+omitted zero clause) are covered by the two lemmas above them; whole files in mixed line endings by the
+splitting lemmas.
 -/
 namespace Cgt.C13
 open Cgt.Dsl
@@ -215,5 +221,27 @@ theorem C13_first_bad_line_is_reported (valid : List String) (text : List Char) 
 -- non-vacuity / sanity on a concrete line
 example : parseLine "2024-01-01  buy aapl 10.50 @5 usd # note".toList =
     .tx ⟨2024, 1, 1, "AAPL", .buy ⟨"10".toList, "50".toList⟩ ⟨⟨['5'], []⟩, "USD"⟩ zeroGbp⟩ := by decide +kernel
+
+/-! ### any layout of a transaction -/
+
+theorem C13_any_layout (L : Layout) (hL : L.ok) (t : DTx) (h : txOk t) :
+    parseLine (render L t) = .tx (normTx t) := parseLine_render L hL t h
+
+theorem C13_layouts_agree (L L' : Layout) (hL : L.ok) (hL' : L'.ok) (t : DTx) (h : txOk t) :
+    parseLine (render L t) = parseLine (render L' t) := by
+  rw [parseLine_render L hL t h, parseLine_render L' hL' t h]
+
+-- non-vacuity: tabs and double blanks, lower-case keywords, a trailing comment
+def lowerKw (k : List Char) : List Char := k.map (fun c => if 'A' ≤ c ∧ c ≤ 'Z' then Char.ofNat (c.toNat + 32) else c)
+def exLayout : Layout := { pre := [' ', '\t'], g := fun i => if i % 2 = 0 then [' ', ' '] else ['\t'], kw := lowerKw, post := " # note".toList }
+example : exLayout.ok := by
+  refine ⟨by decide, ?_, by decide, Or.inr ⟨[' '], "note".toList |> fun r => ' ' :: r, by decide, by decide⟩⟩
+  intro i
+  unfold exLayout
+  simp only
+  split
+  · exact ⟨by simp, by decide⟩
+  · exact ⟨by simp, by decide⟩
+example : render exLayout ⟨2024, 2, 29, "ACME", .split ⟨['2'], []⟩⟩ = " \t2024-02-29  split\tACME  ratio\t2 # note".toList := by decide
 
 end Cgt.C13
